@@ -204,6 +204,71 @@ fn stage_b(q: u8, rep: &mut Report) {
     }
 }
 
+/// Stage B': random blocks with 2-6 coefficients (and optionally INTRADC): every coefficient exact.
+fn stage_b_multi(ctx: &Ctx, q: u8, rep: &mut Report) {
+    let zz = zigzag();
+    let mut rng = Rng::new(ctx.seed ^ 0xC11B, q as u64);
+    let n = ctx.n(20_000, 300_000);
+    for it in 0..n {
+        let with_dc = rng.chance(1, 2);
+        let first = if with_dc { 1 } else { 0 };
+        let k = 2 + rng.below(5) as usize;
+        let mut pos: Vec<usize> = vec![];
+        while pos.len() < k {
+            let p = first + rng.below((64 - first) as u64) as usize;
+            if !pos.contains(&p) {
+                pos.push(p);
+            }
+        }
+        pos.sort();
+        let dc_code = loop {
+            let c = 1 + rng.below(255) as u8;
+            if c != 128 {
+                break c;
+            }
+        };
+        let mut want = [[0f32; 8]; 8];
+        if with_dc {
+            want[0][0] = intradc_level(dc_code).unwrap() as f32;
+        }
+        let mut tcoef = vec![];
+        let mut idx = first;
+        for p in &pos {
+            let mag = match rng.below(4) {
+                0 => 1 + rng.below(1023) as i32,
+                1 => *rng.pick(&[1i32, 33, 34, 127, 128, 528, 529, 1023]),
+                _ => 1 + rng.below(40) as i32,
+            };
+            let level = if rng.chance(1, 2) { mag } else { -mag };
+            tcoef.push(TCoefficient { is_short: false, run: (*p - idx) as u8, level: level as i16 });
+            let (u, v) = zz[*p];
+            want[v][u] = dequant(q as i32, level) as f32;
+            idx = *p + 1;
+        }
+        let block = Block { intradc: if with_dc { IntraDc::from_u8(dc_code) } else { None }, tcoef };
+        let r = catch(|| {
+            let mut levels = vec![DecodedDctBlock::Zero; 2];
+            inverse_rle(&block, &mut levels, (8, 0), 2, q);
+            (matrix(&levels[1]), matches!(levels[0], DecodedDctBlock::Zero))
+        });
+        rep.evaluations += 1;
+        match r {
+            Err(p) => {
+                rep.violation(format!("panic@{}", p.loc), format!("inverse_rle panicked: {}", p.msg), J::obj().set("property", "C11").set("kind", "stageBmulti").set("q", q as u64));
+                return;
+            }
+            Ok((m, untouched)) if m == want && untouched => {
+                rep.count("B:multi_coefficient_blocks_exact");
+                rep.distinct.insert(fnv64(&pos.iter().map(|p| *p as u8).chain([q, it as u8, (it >> 8) as u8, (it >> 16) as u8]).collect::<Vec<u8>>()));
+            }
+            Ok((m, _)) => {
+                rep.violation("B/multi-coefficient", format!("q={} positions {:?} with_dc={}: got {:?} expected {:?}", q, pos, with_dc, m, want), J::obj().set("property", "C11").set("kind", "stageBmulti").set("q", q as u64));
+                return;
+            }
+        }
+    }
+}
+
 fn one_coeff_picture(flavour: Flavour, q: u8, intra: bool, pos: usize, level: i32, esc: Esc, dc: u8, rng: &mut Rng) -> SymPicture {
     let cfg = PicCfg { flavour, w: 16, h: 16, quant: q, tr: 1, wide_levels: false, stuffing_pct: 0, pei: 0, deblock_flag: false, prefer_fixed_size_code: false, force16: false };
     let hdr = make_header(&cfg, if intra { 0 } else { 1 }, rng);
@@ -330,6 +395,7 @@ pub fn run(ctx: &Ctx) -> (Report, String) {
             } else if i <= 31 {
                 if ctx.scale_pct == 100 || i % 6 == 1 {
                     stage_b(i as u8, rep);
+                    stage_b_multi(ctx, i as u8, rep);
                 }
             } else if ctx.scale_pct == 100 || i % 6 == 1 {
                 stage_c(ctx, (i - 31) as u8, rep);
@@ -343,6 +409,7 @@ pub fn run(ctx: &Ctx) -> (Report, String) {
     if ctx.is_main() && ctx.scale_pct == 100 {
         rep.require("B:coefficients_exact", 31 * 2046 * (64 + 63));
         rep.require("B:saturated", 10000);
+        rep.require("B:multi_coefficient_blocks_exact", 31 * 15_000);
         rep.require("A:intradc_ok", 254 * 3);
         rep.require("A:intradc_rejected", 2 * 3);
         rep.require("C:dquant_updates", 31 * 4 * 2);
@@ -359,6 +426,7 @@ pub fn replay(ctx: &Ctx, j: &J, rep: &mut Report) {
     match j.get("kind").and_then(|k| k.as_str()) {
         Some("stageA") => stage_a(rep),
         Some("stageB") => stage_b(q, rep),
+        Some("stageBmulti") => stage_b_multi(ctx, q, rep),
         _ => stage_c(ctx, q, rep),
     }
 }
